@@ -175,6 +175,9 @@ func NewWithBackend(cfg Config, dirs *Dirs, be backend.Backend) (*Gateway, error
 	}
 	app := fiber.New(fiberConfig())
 	sopts := []s3api.Option{s3api.WithQuiet(), s3api.WithAdminServer()}
+	if os.Getenv("VGWSIM_GWDEBUG") != "" {
+		sopts = append(sopts, s3api.WithDebug())
+	}
 	if cfg.ReadOnly {
 		sopts = append(sopts, s3api.WithReadOnly())
 	}
